@@ -625,6 +625,11 @@ E2E_CORPUS = [
     (Case(None, ["x", 0, "a"], None, 0), Cfg(), "dataclasses.dataclass", {"set_default_enum_member": True}),
     (Case("integer", [0, 1], None, 1), Cfg(), "dataclasses.dataclass", {"set_default_enum_member": True}),
     (Case("string", ["a", "b", None], None, "b"), Cfg(), "pydantic.BaseModel", {"set_default_enum_member": True}),
+    # the witness of the repaired finding C09-F3 (pydantic output built the validating default_factory of a member that refers to the
+    # nullable root model only for truthy defaults, `e: Optional[E] = ''` stayed the raw string): must hold in both pydantic kinds
+    # (dataclass output: known finding D27)
+    (Case("string", ["a", "", None], None, ""), Cfg(), "pydantic_v2.BaseModel", {"set_default_enum_member": True}),
+    (Case("string", ["a", "", None], None, ""), Cfg(), "pydantic.BaseModel", {"set_default_enum_member": True}),
     (Case("string", ["a", "b[", "c|d", None]), Cfg(), "pydantic_v2.BaseModel", {"enum_field_as_literal": "all"}),
     (Case("string", ["a", "b[", "c | d"]), Cfg(), "pydantic_v2.BaseModel", {"enum_field_as_literal": "all", "use_union_operator": True}),
     (Case("string", ["only"]), Cfg(), "pydantic_v2.BaseModel", {"enum_field_as_literal": "one"}),
